@@ -81,6 +81,15 @@ def tasks(tier):
         cfg = dict(M=M if e not in ENTRIES0 else 1, alphabet=["ok", "x:T", "r:T"] if e not in ENTRIES0 else ["ok", "x:T"],
                    max_unknown=None, attempt_hooks="call", faults=[("astart", idx, "AbortRetryError")])
         out.append({"family": "outcome-hook-abort", "cfg": cfg, "entry": e, "bound": 0})
+    # nobody observes the run; exceptions carrying an errno-style string code (retry-less
+    # policies classify with the built-in classifier)
+    for M, e in itertools.product([1, 2, 3], ENTRIES):
+        cfg = dict(M=M, alphabet=["ok", "x:T", "r:T", "x:P", "xsc:T"], metric=False, log=False,
+                   max_unknown=None)
+        out.append({"family": "outcome-unobserved", "cfg": cfg, "entry": e, "bound": 1})
+    for e in ENTRIES0:
+        cfg = dict(M=1, alphabet=["ok", "xsc:U", "x:T"], attempt_hooks="call")
+        out.append({"family": "outcome-string-code", "cfg": cfg, "entry": e, "bound": 0})
     # no retry component
     for e in ENTRIES0:
         cfg = dict(M=1, alphabet=["ok"] + [f"x:{k}" for k in "TRSCUPAF"] + ["abort", "kbd", "cancel"],
